@@ -99,6 +99,64 @@ check('C12',
       'TLA+ run-loop spec (TLC exhaustive), exhaustive replay of TLC terminal states into DocTest.run with before/after snapshots of process globals',
       'DESIGN.md section 5 (C12)', 'docrun')
 
+DOCPARSE_NOTE = ('Trusted: TLC; the line templates of harness/parselib.py (each template is checked at start against Python\'s own tokenizer/ast '
+                 'for the attributes the specification assumes: lines until balanced, statement starts, expression). The tokenizer is exercised '
+                 'only through those templates. Known finding F11 (prompt at another indentation directly under source) is carved out of the '
+                 'invariants and reported as KNOWN-FINDING; for those docstrings only the declarative labels are compared.')
+
+check('C13',
+      'DocParse.tla models the parser line by line: the 4-state labeller with state_indent and statement completion (Feed, one step per line), the '
+      'three grouping passes and the packaging (PS1 lines, directive breaks, final-expression split, compile modes) on index ranges, plus a '
+      'declarative labelling Decl written from the property sentence. TLC enumerates every docstring of <=3 building blocks over 50 block kinds '
+      '(12 statement shapes x prompt styles x 2 indentation levels, text, blank, bare "...", "... text"; thorough: <=5 over a core alphabet) and '
+      'checks LabelsAreDecl, PartsPartition, LabelsMatchParts, NoStatementSplit. Every finished docstring is rendered from the abstract line list '
+      'and parsed by the real DoctestParser: labels per line, parts (kind, line_offset, source/want line counts, mode, directives), error class, '
+      'and the parts joined back must equal the specification and reproduce the docstring; a fifth also tab-indented / extra-indented.',
+      DOCPARSE_NOTE, 'TLA+ parser spec vs declarative labelling (TLC exhaustive), exhaustive replay of TLC-generated docstrings into the real parser',
+      'DESIGN.md section 5 (C13)', 'docparse')
+
+check('C01',
+      'DocParse.tla over programs (C01_Blocks: 13 statement shapes x prompt styles, trailing +SKIP on first/last line, +SKIP/-SKIP comment lines, '
+      'wants, prose, blank lines): TLC checks NoStatementSplit, PartsPartition, EvalPartsSingleStatement and RunSetAgrees (the run loop over the '
+      'packaged parts runs exactly the statements the declarative directive rule enables, once, in order) for every program of <=3 (thorough <=4) '
+      'blocks. Every finished program is rendered; its de-prompted source minus disabled statements is executed as an ordinary program '
+      '(reference) and by the real DocTest.run: executed-statement trace, stdout per part and in total, final bindings must agree with the '
+      'reference and the prediction; consecutive doctests are checked for stdout attribution; tab / extra-indent variants.',
+      DOCPARSE_NOTE + ' Wants are ignored in these runs (verdicts: C02). Top-level await is covered by body kind "await" of the DocRun checks.',
+      'TLA+ parser+run-set spec (TLC exhaustive), exhaustive replay into DocTest.run against a plain-exec reference',
+      'DESIGN.md section 5 (C01)', 'docparse')
+
+check('C14',
+      'DocParse.tla has explicit error transitions (statement never balanced, bad indentation inside an open statement, completed chunk not valid '
+      'Python, "... text" read as code); TLC enumerates every docstring of <=3 (thorough <=4) blocks over well-formed and malformed building blocks '
+      'and checks that an error needs a malformed block. Every finished docstring is parsed by the real parser under an alarm: the outcome class '
+      '(parts / DoctestParseError) must be the predicted one, never another exception or a hang. Containment: three docstrings per module '
+      '(>=1 malformed) collected under each style: a malformed docstring gives a warning and no example, the others their example, each runnable. '
+      'Seeded random strings from a fragment grammar are checked against the envelope only.',
+      DOCPARSE_NOTE + ' For the random strings the specification supplies only the envelope (parts or DoctestParseError within 5 s); their outcome is not predicted.',
+      'TLA+ parser spec with error transitions (TLC exhaustive), exhaustive replay into the real parser and collector, random envelope',
+      'DESIGN.md section 5 (C14)', 'docparse')
+
+check('C18',
+      'DocParse.tla second round: the formatted source of a parsed docstring (source lines as kept by the parts, want lines, text dropped) is fed '
+      'to the same labeller/grouper/packager again; TLC checks ReparseSame (same flattened executable lines, wants at the same places, same '
+      'evaluation modes, no error) for every program of <=3 blocks over C01_Blocks (1.3M states). For the finished docstrings the real '
+      'DocTest.format_src is compared line by line with the predicted formatted text (prompts+wants; no prompts/no wants), the numbers in the '
+      'left margin with the line positions (doctest-relative and file-relative, four start lines), and the formatted text is parsed again by the '
+      'real parser and compared with the original parts.',
+      DOCPARSE_NOTE, 'TLA+ parser spec with re-parse round (TLC exhaustive), replay into DocTest.format_src and the real parser',
+      'DESIGN.md section 5 (C18)', 'docparse')
+
+check('C19',
+      'DocParse.tla over C19_Blocks (programs incl. star-imports, directives, multi-line/decorated/triple-quoted statements, wants): the parts the '
+      'dump conversion iterates over hold every source line once and in order (PartsPartition, NoStatementSplit). Modules of 1..3 finished '
+      'docstrings (some force-disabled) are converted by runner.doctest_module(path, "dump"): the output must parse with ast, contain exactly one '
+      'test function per enabled doctest, and each body (minus generated docstring/import header) must be the de-prompted source lines without '
+      'star-imports interleaved with the want lines as comments, in order.',
+      DOCPARSE_NOTE + ' Body lines are compared on content; indentation inside multi-line strings is not.',
+      'TLA+ parser spec (TLC exhaustive), replay of TLC-generated docstrings through the dump command, ast check',
+      'DESIGN.md section 5 (C19)', 'docparse')
+
 NOT_YET = ['C01', 'C02', 'C03', 'C04', 'C05', 'C07', 'C08', 'C09', 'C10', 'C11', 'C12', 'C13', 'C14', 'C15', 'C16',
            'C17', 'C18', 'C19', 'C20']
 
@@ -120,6 +178,7 @@ def main():
         },
         'engines': [
             {'name': 'docrun', 'path': 'specs/DocRun.tla', 'serves_properties': ['C01', 'C02', 'C03', 'C04', 'C09', 'C11', 'C12'], 'kind_free_text': 'TLA+ spec of DocTest.run (run loop, directive state, want buffer, except ladder) with declarative reference; MC_DocRun.tla alphabets; TLC + replay harness runlib.py'},
+            {'name': 'docparse', 'path': 'specs/DocParse.tla', 'serves_properties': ['C01', 'C13', 'C14', 'C18', 'C19', 'C20'], 'kind_free_text': 'TLA+ spec of the docstring parser (labeller, grouping, packaging, re-parse round, run set) with declarative labelling; MC_DocParse.tla alphabets; TLC prints finished docstrings, harness/parselib.py replays them'},
             {'name': 'match', 'path': 'specs/Match.tla', 'serves_properties': ['C05', 'C06'], 'kind_free_text': 'TLA+ spec of output matching (normalisation pipeline, ellipsis) + MatchTrace.tla trace spec; TLC'},
         ],
         'checks': [CHECKS[k] for k in sorted(CHECKS)],
